@@ -23,8 +23,10 @@ SHARD = 60
 RULE = ("(1) one interval-arithmetic certificate (a Coq lemma |model expression - observed entry| <= 64 x 2^-52 x condition, "
         "proved by coq-interval, compiled by coqc) per sampled entry of Spline.jacobian / VectorSpline2D.jacobian / value of "
         "CheckerBoard.predict: distances 0 (coincident), 1e-12 .. 1e8, 1 - 2^-53, exactly 1, 1 + 2^-52, e, along the axes and "
-        "oblique, with offsets, mindist 0 / small / large, Poisson ratios in [-1, 1], explicit and default checkerboard "
-        "wavelengths; (2) predict against jacobian x parameters exactly on dyadics for externally set and fitted parameters and "
+        "oblique, with offsets, mindist 0 / small / large / tiny, Poisson ratios in [-1, 1] with the documented special values "
+        "(-1, 0, 1) in half and mindist = 0 in a fifth of the elastic samples plus all their combinations; CheckerBoard through "
+        "predict (points, 2-D arrays) and grid() with the four option combinations (defaults, only w_east, only w_north, both "
+        "given) in equal shares on regions away from the origin, and the w_east_/w_north_ properties exactly; (2) predict against jacobian x parameters exactly on dyadics for externally set and fitted parameters and "
         "1-D / 2-D / scalar-broadcast query shapes (Spline, VectorSpline2D, Trend); (3) Trend.jacobian columns against exact "
         "monomials in the documented order for degrees 0..6(8) and polynomial_power_combinations against the model (generator + "
         "stable sort) and the closed form; (4) jacobians of dyadically shifted coordinates bit-equal; (5) Linear/Cubic against "
@@ -112,21 +114,28 @@ def elastic_cert(which, e, n, fe, fn, md, nu, obs, kind):
                 nontrivial=not (which == "ne" and q == 0))
 
 
-def checker_cert(amp, region, we, wn, e, n, obs, kind):
+def _copt(x):
+    return "None" if x is None else "(Some %s)" % fR(x)
+
+
+def checker_cert(amp, region, we, wn, e, n, obs, kind, via="predict", use_default_def=False):
     w_e = we if we is not None else (region[1] - region[0]) / 2
     w_n = wn if wn is not None else (region[3] - region[2]) / 2
     tol = 64 * U * abs(amp) * (1 + abs(2 * math.pi / w_e * e) + abs(2 * math.pi / w_n * n))
-    if we is None and wn is None:
+    if we is None and wn is None and use_default_def:
         expr = "checker_default %s %s %s %s %s %s %s" % (fR(amp), fR(region[0]), fR(region[1]), fR(region[2]), fR(region[3]), fR(e), fR(n))
         script = "unfold checker_default, checker. interval with (i_prec 90)."
     else:
-        expr = "checker %s %s %s %s %s" % (fR(amp), fR(w_e), fR(w_n), fR(e), fR(n))
-        script = "unfold checker. interval with (i_prec 90)."
+        expr = "checker_opt %s %s %s %s %s %s %s %s %s" % (fR(amp), fR(region[0]), fR(region[1]), fR(region[2]), fR(region[3]),
+                                                         _copt(we), _copt(wn), fR(e), fR(n))
+        script = "unfold checker_opt, wavelength, checker. interval with (i_prec 90)."
     stmt = "Rabs (%s - %s) <= %s" % (expr, fR(obs), fR(tol))
     repro = ("import verde, numpy as np; print(repr(verde.synthetic.CheckerBoard(amplitude=%r, region=%r, w_east=%r, w_north=%r)"
-             ".predict((np.array([%r]), np.array([%r])))[0]))" % (amp, tuple(region), we, wn, e, n))
-    return Cert(stmt, script, {"kernel": "checkerboard", "amplitude": amp, "region": list(region), "w_east": we, "w_north": wn,
-                               "east": e, "north": n}, {"value": obs, "tol": tol}, kind, repro)
+             ".predict((np.array([%r]), np.array([%r])))[0]))  # observed through %s" % (amp, tuple(region), we, wn, e, n, via))
+    options = {(True, True): "defaults", (False, True): "only-w_east", (True, False): "only-w_north", (False, False): "both-given"}[
+        (we is None, wn is None)]
+    return Cert(stmt, script, {"kernel": "checkerboard", "options": options, "via": via, "amplitude": amp, "region": list(region),
+                               "w_east": we, "w_north": wn, "east": e, "north": n}, {"value": obs, "tol": tol}, kind, repro)
 
 
 # ---------------------------------------------------------------------------
@@ -270,10 +279,14 @@ def spline_samples(vd, rnd, tier):
     return certs
 
 
+SPECIAL_NU = [-1.0, 0.0, 1.0]
+
+
 def elastic_samples(vd, rnd, tier):
     certs = []
     reps = 1 if tier == "quick" else 4
     nus = [0.5, -1.0, 1.0, 0.0, 0.25, -0.5, 0.3]
+    generic = [0.5, 0.25, -0.5, 0.3, -0.9, 0.99]
     k = 0
     for rep in range(reps):
         for r in [0.0, 1e-12, 1e-6, 1e-3, 0.5, 1.0, E_DOUBLE, 10.0, 1e3, 1e4, 1e6, 1e8]:
@@ -282,10 +295,14 @@ def elastic_samples(vd, rnd, tier):
                 dirs = [dirs[rnd.randrange(3)], dirs[3 + rnd.randrange(2)]]
             for (dx, dy) in dirs:
                 k += 1
-                nu = nus[k % len(nus)] if rep == 0 else rnd.choice(nus + [round(rnd.uniform(-1, 1), 3)])
+                # fixed shares: every second sample has a documented special Poisson ratio (-1 uncoupled, 0, 1) ...
+                if k % 2 == 0:
+                    nu = SPECIAL_NU[(k // 2) % 3]
+                else:
+                    nu = generic[(k // 2) % len(generic)] if rep == 0 else rnd.choice(generic + [round(rnd.uniform(-1, 1), 3)])
                 md = rnd.choice([10e3, 1.0, 1e-3, 0.5 * r if r else 2.0])
-                if r >= 1e-3 and rnd.random() < 0.25:
-                    md = 0.0   # "mindist values >= 0": allowed when the points are apart
+                if r >= 1e-3 and k % 5 == 0:
+                    md = 0.0   # ... and every fifth mindist = 0 ("mindist values >= 0": allowed when the points are apart)
                 fe, fn = rnd.choice([(0.0, 0.0), (2.5, -1.0), (-1024.0, 512.0)]) if r >= 1e-3 else (0.0, 0.0)
                 e, n = fe + dx, fn + dy
                 J = vd.VectorSpline2D(poisson=nu, mindist=md).jacobian((np.array([e]), np.array([n])), (np.array([fe]), np.array([fn])))
@@ -295,6 +312,20 @@ def elastic_samples(vd, rnd, tier):
                 certs.append(elastic_cert("nn", e, n, fe, fn, float(md), nu, nn, kind))
                 # the off-diagonal blocks alternate between the two positions of the matrix
                 certs.append(elastic_cert("ne", e, n, fe, fn, float(md), nu, ne if k % 2 else ne2, kind))
+    # the documented special parameter values, all combinations: poisson in {-1, 0, 1} x mindist in {0, default 10e3, 1}
+    for nu in SPECIAL_NU:
+        for md in (0.0, 10e3, 1.0):
+            rs = [0.5, 1e4] if tier == "quick" else [1e-3, 0.5, 1.0, E_DOUBLE, 30.0, 1e4, 1e6]
+            for r in rs:
+                k += 1
+                dx, dy = _directions(rnd, r * rnd.uniform(0.7, 1.4))[3 + k % 2]
+                fe, fn = [(0.0, 0.0), (2.5, -1.0), (-1024.0, 512.0)][k % 3]
+                e, n = fe + dx, fn + dy
+                J = vd.VectorSpline2D(poisson=nu, mindist=md).jacobian((np.array([e]), np.array([n])), (np.array([fe]), np.array([fn])))
+                kind = "cert-elastic-special-poisson%+d-mindist%s" % (int(nu), "0" if md == 0 else "pos")
+                certs.append(elastic_cert("ee", e, n, fe, fn, float(md), nu, float(J[0, 0]), kind))
+                certs.append(elastic_cert("nn", e, n, fe, fn, float(md), nu, float(J[1, 1]), kind))
+                certs.append(elastic_cert("ne", e, n, fe, fn, float(md), nu, float(J[0, 1] if k % 2 else J[1, 0]), kind))
     # tiny positive mindist (mindist**2 underflows / subnormal): coincident points and points apart
     tiny = [1e-162, 1e-300, 2.2250738585072014e-308, 5e-324] if tier == "quick" else TINY
     for md in tiny:
@@ -312,22 +343,57 @@ def elastic_samples(vd, rnd, tier):
     return certs
 
 
+# regions away from the origin (and the class default); wavelengths that differ from half of every extent
+CB_REGIONS = [(1000.0, 5000.0, -8000.0, -6000.0), (100.0, 103.5, -8.0, 56.0), (-10.0, 6.0, 2.0, 3.0), (0.0, 4000.0, 0.0, 2000.0),
+              (0.0, 5000.0, -5000.0, 0.0), (-7300.5, -7100.0, 250.25, 900.0)]
+CB_WAVES = [(700.0, 300.0), (3.0, 7.0), (1250.0, 400.0), (0.75, 12.5), (100.0, 0.3), (37.5, 5100.0)]
+CB_OPTIONS = ["defaults", "only-w_east", "only-w_north", "both-given"]
+
+
+def _cb_options(k, region, waves):
+    """the k-th option combination (fixed shares: every combination a quarter of the samples)"""
+    we, wn = waves
+    assert we != (region[1] - region[0]) / 2 and wn != (region[3] - region[2]) / 2
+    return [(None, None), (we, None), (None, wn), (we, wn)][k % 4]
+
+
 def checker_samples(vd, rnd, tier):
     certs = []
-    n = 14 if tier == "quick" else 120
+    quick = tier == "quick"
+    # (a) predict on single points / 2-D arrays: all four option combinations in equal shares
+    n = 16 if quick else 120
     for i in range(n):
-        region = rnd.choice([(0.0, 5000.0, -5000.0, 0.0), (-10.0, 6.0, 2.0, 3.0), (100.0, 103.5, -8.0, 56.0)])
+        region = CB_REGIONS[(i // 4) % len(CB_REGIONS)]
+        waves = CB_WAVES[(i // 4 + i // 24) % len(CB_WAVES)]
+        we, wn = _cb_options(i, region, waves)
         amp = rnd.choice([1000.0, 1.0, -2.5, 37.0])
-        if i % 2 == 0:
-            we = wn = None
-            cb = vd.synthetic.CheckerBoard(amplitude=amp, region=region)
-        else:
-            we, wn = rnd.choice([(3.0, 7.0), (1250.0, 400.0), (0.75, 12.5), (100.0, 0.3)])
-            cb = vd.synthetic.CheckerBoard(amplitude=amp, region=region, w_east=we, w_north=wn)
+        cb = vd.synthetic.CheckerBoard(amplitude=amp, region=region, w_east=we, w_north=wn)
         e = rnd.uniform(region[0], region[1]) if i % 3 else region[0] + (region[1] - region[0]) * rnd.choice([0, 0.125, 0.25, 1])
         nn = rnd.uniform(region[2], region[3]) if i % 5 else region[2] + (region[3] - region[2]) * rnd.choice([0, 0.25, 0.5])
-        val = float(cb.predict((np.array([e]), np.array([nn])))[0])
-        certs.append(checker_cert(amp, region, we, wn, float(e), float(nn), val, "cert-checkerboard"))
+        if (i // 4) % 2:
+            qe = np.array([[region[0], e], [e, region[1]]]); qn = np.array([[region[2], region[3]], [nn, nn]])
+            out = cb.predict((qe, qn))
+            assert out.shape == qe.shape
+            val, via = float(out[1, 0]), "predict (2-D arrays)"
+        else:
+            val, via = float(cb.predict((np.array([e]), np.array([nn])))[0]), "predict"
+        certs.append(checker_cert(amp, region, we, wn, float(e), float(nn), val, "cert-checkerboard-" + CB_OPTIONS[i % 4], via,
+                                  use_default_def=bool((i // 4) % 2)))
+    # (b) grid(): nodes of the gridded data set, all four option combinations
+    m = 4 if quick else 24
+    for i in range(m):
+        region = CB_REGIONS[(i // 4 + 1) % len(CB_REGIONS)]
+        waves = CB_WAVES[(i // 4 + 2) % len(CB_WAVES)]
+        we, wn = _cb_options(i, region, waves)
+        amp = rnd.choice([1000.0, 25.0, -2.5])
+        cb = vd.synthetic.CheckerBoard(amplitude=amp, region=region, w_east=we, w_north=wn)
+        grid = cb.grid(shape=(4, 5))
+        vals = np.asarray(grid.scalars.values, dtype=float)
+        ge = np.asarray(grid.easting.values, dtype=float); gn = np.asarray(grid.northing.values, dtype=float)
+        assert vals.shape == (4, 5)
+        for (r, c) in ([(1, 3)] if quick else [(1, 3), (2, 1), (3, 4)]):
+            certs.append(checker_cert(amp, region, we, wn, float(ge[c]), float(gn[r]), float(vals[r, c]),
+                                      "cert-checkerboard-grid-" + CB_OPTIONS[i % 4], "grid(shape=(4, 5)).scalars[%d, %d]" % (r, c)))
     return certs
 
 
@@ -402,15 +468,20 @@ def predict_spline_case(vd, rnd, fitted, kind):
     return Case(inp, {"predict": np.asarray(y).ravel().tolist()}, term, repro, kind)
 
 
-def predict_vector_case(vd, rnd, fitted, kind):
+def predict_vector_case(vd, rnd, fitted, kind, idx=0):
     m = rnd.randint(1, 6)
     fe = np.array([rnd.uniform(-20, 20) for _ in range(m)])
     fn = np.array([rnd.uniform(-20, 20) for _ in range(m)])
     md = rnd.choice([10e3, 1.0, 0.5, 1e-2])
-    nu = rnd.choice([0.5, -1.0, 1.0, 0.0, 0.3, -0.25])
+    # fixed shares: special Poisson ratios (-1, 0, 1) in half of the cases; mindist = 0 in every third unfitted case
+    # (points apart: no query point on a force then)
+    nu = [-1.0, 0.5, 0.0, 0.3, 1.0, -0.25][(idx // 2) % 6]
+    md0 = (not fitted) and (idx // 2) % 3 == 1
+    if md0:
+        md = 0.0
     shape_kind = rnd.choice(SHAPES)
     qe, qn = _query(rnd, shape_kind)
-    if rnd.random() < 0.4:
+    if rnd.random() < 0.4 and not md0:
         qe = qe.copy(); qn = qn.copy()
         qe.flat[0] = fe[0]; qn.flat[0] = fn[0]
     vs = vd.VectorSpline2D(poisson=nu, mindist=md)
@@ -482,7 +553,7 @@ def trend_predict_case(vd, rnd, N, fitted, kind):
                 % (N, np.asarray(tr.coef_).tolist(), qe.tolist(), qn.tolist()), kind)
 
 
-def translation_case(vd, rnd, vector, kind):
+def translation_case(vd, rnd, vector, kind, idx=0):
     n, m = rnd.randint(2, 6), rnd.randint(1, 5)
     pe = np.array([_dy(rnd, -8, 8) for _ in range(n)]); pn = np.array([_dy(rnd, -8, 8) for _ in range(n)])
     fe = np.array([_dy(rnd, -8, 8) for _ in range(m)]); fn = np.array([_dy(rnd, -8, 8) for _ in range(m)])
@@ -491,7 +562,7 @@ def translation_case(vd, rnd, vector, kind):
     with warnings.catch_warnings():
         warnings.simplefilter("ignore")
         if vector:
-            g = vd.VectorSpline2D(poisson=rnd.choice([0.5, -0.3, 1.0]), mindist=rnd.choice([1.0, 10e3, 0.25]))
+            g = vd.VectorSpline2D(poisson=[-1.0, 0.5, 0.0, -0.3, 1.0][(idx // 2) % 5], mindist=rnd.choice([1.0, 10e3, 0.25]))
             desc = {"gridder": "VectorSpline2D", "poisson": g.poisson, "mindist": g.mindist}
         else:
             md = rnd.choice([0.0, 0.0, 0.5])
@@ -537,7 +608,7 @@ def scipy_case(vd, rnd, cls_name, rescale, kind):
                 % (cls_name, rescale, rescale), kind, nontrivial=bool(sensitive))
 
 
-def finite_case(vd, rnd, vector, kind, i_tiny=None):
+def finite_case(vd, rnd, vector, kind, i_tiny=None, idx=0):
     n = rnd.randint(2, 6)
     pe = np.array([rnd.uniform(-1e3, 1e3) for _ in range(n)]); pn = np.array([rnd.uniform(-1e3, 1e3) for _ in range(n)])
     pe[-1], pn[-1] = pe[0], pn[0]     # a duplicated point as well
@@ -545,7 +616,7 @@ def finite_case(vd, rnd, vector, kind, i_tiny=None):
         warnings.simplefilter("ignore")
         if vector:
             md = rnd.choice([10e3, 1.0, 1e-6] + TINY) if i_tiny is None else TINY[i_tiny % len(TINY)]
-            g = vd.VectorSpline2D(poisson=rnd.choice([0.5, -1.0, 1.0]), mindist=md)
+            g = vd.VectorSpline2D(poisson=[-1.0, 0.5, 0.0, 1.0][(idx // 2) % 4], mindist=md)
             J = g.jacobian((pe, pn), (pe, pn))
             g.force_coords = (pe, pn); g.force_ = np.ones(2 * n)
             y = np.concatenate(g.predict((pe, pn)))
@@ -564,13 +635,20 @@ def finite_case(vd, rnd, vector, kind, i_tiny=None):
                 "# jacobian and predict with the forces on the (partly duplicated) data points for the listed input", kind)
 
 
-def half_case(vd, region):
-    cb = vd.synthetic.CheckerBoard(region=region)
+def half_case(vd, region, k=0, waves=(700.0, 300.0)):
+    """the w_east_ / w_north_ properties: the given value bit for bit, or exactly half of the extent"""
+    we, wn = _cb_options(k, region, waves)
+    cb = vd.synthetic.CheckerBoard(region=region, w_east=we, w_north=wn)
     cases = []
-    for lo, hi, w, nm in ((region[0], region[1], cb.w_east_, "w_east"), (region[2], region[3], cb.w_north_, "w_north")):
-        cases.append(Case({"fn": "CheckerBoard default " + nm, "region": list(region)}, {nm: float(w)},
-                          "c03_half %s %s %s" % (cD(lo), cD(hi), cD(w)),
-                          "import verde; print(verde.synthetic.CheckerBoard(region=%r).%s_)" % (tuple(region), nm), "checkerboard-default-wavelength"))
+    for lo, hi, given, w, nm in ((region[0], region[1], we, cb.w_east_, "w_east"), (region[2], region[3], wn, cb.w_north_, "w_north")):
+        if given is None:
+            term = "c03_half %s %s %s" % (cD(lo), cD(hi), cD(w))
+        else:
+            term = "c03_same [[%s]] [[%s]] true" % (cD(w), cD(given))
+        cases.append(Case({"fn": "CheckerBoard." + nm + "_", "options": CB_OPTIONS[k % 4], "region": list(region), "w_east": we, "w_north": wn},
+                          {nm + "_": float(w)}, term,
+                          "import verde; print(verde.synthetic.CheckerBoard(region=%r, w_east=%r, w_north=%r).%s_)" % (tuple(region), we, wn, nm),
+                          "checkerboard-wavelength-" + CB_OPTIONS[k % 4]))
     return cases
 
 
@@ -596,7 +674,7 @@ def generate(tier, seed):
     npred = 12 if quick else 120
     for i in range(npred):
         cases += _guard(predict_spline_case, "predict-spline", vd, rnd, fitted=bool(i % 2), kind="predict-spline")
-        cases += _guard(predict_vector_case, "predict-vector", vd, rnd, fitted=bool(i % 2), kind="predict-vector")
+        cases += _guard(predict_vector_case, "predict-vector", vd, rnd, fitted=bool(i % 2), kind="predict-vector", idx=i)
     for N in range(0, 9 if quick else 13):
         cases += _guard(combos_case, "trend-combinations", N)
     for rep in range(1 if quick else 8):
@@ -605,17 +683,18 @@ def generate(tier, seed):
             cases += _guard(trend_predict_case, "trend-predict", vd, rnd, N, fitted=bool((N + rep) % 2), kind="trend-predict")
     for i in range(8 if quick else 80):
         k = "translation-vector" if i % 2 else "translation-spline"
-        cases += _guard(translation_case, k, vd, rnd, vector=bool(i % 2), kind=k)
+        cases += _guard(translation_case, k, vd, rnd, vector=bool(i % 2), kind=k, idx=i)
     for i in range(8 if quick else 80):
         k = "scipy-linear" if i % 2 else "scipy-cubic"
         cases += _guard(scipy_case, k, vd, rnd, "Linear" if i % 2 else "Cubic", bool((i // 2) % 2), k)
     for i in range(6 if quick else 60):
         k = "finite-vector" if i % 2 else "finite-spline"
-        cases += _guard(finite_case, k, vd, rnd, vector=bool(i % 2), kind=k)
+        cases += _guard(finite_case, k, vd, rnd, vector=bool(i % 2), kind=k, idx=i)
     for i in range(len(TINY)):     # every tiny mindist, forces on the data points
-        cases += _guard(finite_case, "finite-vector-tiny-mindist", vd, rnd, vector=True, kind="finite-vector-tiny-mindist", i_tiny=i)
-    for region in [(0.0, 5000.0, -5000.0, 0.0), (-10.0, 6.0, 2.0, 3.0), (100.0, 103.5, -8.0, 56.0)]:
-        cases += _guard(half_case, "checkerboard-default-wavelength", vd, region)
+        cases += _guard(finite_case, "finite-vector-tiny-mindist", vd, rnd, vector=True, kind="finite-vector-tiny-mindist", i_tiny=i, idx=2 * i)
+    for j, region in enumerate(CB_REGIONS if not quick else CB_REGIONS[:3]):
+        for k in range(4):
+            cases += _guard(half_case, "checkerboard-wavelength", vd, region, k, CB_WAVES[(j + k) % len(CB_WAVES)])
     return cases
 
 
